@@ -19,6 +19,12 @@ ASSUMPTIONS = [
     "frames are byte strings; the decoder's latin-1 step is a bijection between bytes and code points < 256",
     "BodyLength has at most 4300 digits (CPython's int() limit): frames shorter than 10^4300 bytes",
 ]
+ASSUMPTIONS += [
+    "the theorems quantify over the CONTENT of a message (ordered tag tree + message type text); how the FIXMessage object "
+    "came to hold that content (operation history, aliasing of item objects, spelling of tags / message type as str, int, "
+    "FTag, FMsg) is outside the Lean model's quantifier and is covered by the correspondence and the oracle only: "
+    "about half of all generated messages are built by HistoryBuilder (codec_common) instead of in one go",
+]
 MODELLED_NOT_VERIFIED = [
     "C01: Codec.encode/_addTag/decode and FIXContainer.set/add_group are hand-modelled (Model/Codec/*.lean) and compared "
     "with the implementation on generated messages over the implementation's own group table, in both directions",
@@ -43,9 +49,61 @@ def seq_text_of(case, mode):
 
 
 def gen(ctx, i):
+    """(case, mode, hist): hist = None (message built in one go from the tree, type as plain str) or
+    {"seed", "spell"}: the same content reached through a history of container operations (K.HistoryBuilder)"""
     rng = ctx.rng
     case, mode = gen_case(rng, i)
-    return case, mode
+    hist = None
+    if rng.random() < 0.02:
+        case = enlarge(rng, case)
+    if rng.random() < 0.55 and not K.has_dup_tags(case[1]):
+        hist = {"seed": rng.randrange(2 ** 31), "spell": rng.choice(["str", "fmsg"])}
+    return case, mode, hist
+
+
+def enlarge(rng, case):
+    """sizes beyond the usual: a long value (BodyLength gets 4-5 digits) or a group with 10-40 items"""
+    mtype, tree, sender, target, nxt, raw, now = case
+    tree = list(tree)
+    gi = [i for i, n in enumerate(tree) if n[0] == "G" and n[2]]
+    if gi and rng.random() < 0.6:
+        i = rng.choice(gi)
+        items = list(tree[i][2])
+        last = items[-1]
+        for k in range(rng.randint(10, 40) - len(items)):
+            it = list(last)
+            if it and it[0][0] == "L" and rng.random() < 0.7:
+                it[0] = ("L", it[0][1], it[0][2] + str(k))
+            items.append(it)
+        tree[i] = ("G", tree[i][1], items)
+    else:
+        used = {n[1] for n in tree}
+        t = next((t for t in ("58", "5001", "9999", "354") if t not in used), None)
+        if t is not None:
+            tree.append(("L", t, "".join(rng.choice(K.VALUE_ALPHABET) for _ in range(rng.choice([90, 990, 9990, 20000])))))
+    keep = any(n[1] == "34" for n in case[1])
+    if not K.wf_msg(mtype, [n for n in tree if n[1] != "43"], keep) and K.wf_msg(mtype, [n for n in case[1] if n[1] != "43"], keep):
+        return case
+    return (mtype, tree, sender, target, nxt, raw, now)
+
+
+def builder_of(case, hist, sink=None):
+    if hist is None:
+        return None
+    hb = K.HistoryBuilder(case[0], case[1], hist["seed"], hist.get("spell", "str"))
+
+    def build():
+        m = hb.build()
+        if sink is not None:
+            sink.append(hb)
+        return m
+
+    return build
+
+
+def add_stats(total, hb):
+    for k, v in hb.stats.items():
+        total[k] = total.get(k, 0) + v
 
 
 def strip_nonlatin(case):
@@ -68,15 +126,43 @@ def strip_nonlatin(case):
     return (mtype, clean(tree), "".join(c for c in sender if ord(c) < 256), target, nxt, raw, now)
 
 
-def roundtrip_impl(impl, case, mode):
+def roundtrip_impl(impl, case, mode, hist=None, hstats=None):
     """returns (failure dict | None, info)"""
     mtype, tree, sender, target, nxt, raw, now = case
     keep = mode != "alloc"
     if not K.wf_msg(mtype, tree if mode != "possdup" else [n for n in tree if n[1] != "43"] , keep) and mode != "possdup":
         return None, "not-wf"
-    r, f = impl.encode(*case)
+    sink = []
+    r, f = impl.encode(*case, builder=builder_of(case, hist, sink))
+    hb = sink[0] if sink else None
+    if hb is not None and hstats is not None:
+        add_stats(hstats, hb)
+    inp = case_json(case, hist, hb)
+    if hb is not None and (K.tree_of(impl.last_msg) != [tuple(n) for n in tree] or str(impl.last_msg.msg_type) != mtype):
+        # the container operations did not produce the intended content: not a codec matter (C18), the message
+        # that was encoded is something else - nothing to compare against
+        return None, "history-diverged"
     if f is None:
-        return None, "encode-refused"
+        if mode == "possdup" or seq_text_of(case, mode) is None or any(ord(c) > 255 for c in sender + target):
+            return None, "encode-refused"
+        return {"signature": "C01-wellformed-message-refused:" + mode + (":hist" if hist else ""),
+                "what": "Codec.encode raised on a well-formed message (" + r + ")",
+                "input": inp, "expected": "ok <frame>", "observed": r}, "checked"
+    # encoding must not change the message: a second encode of the same object gives the same frame
+    if hist is not None and hist["seed"] % 4 == 0:
+        from asyncfix.session import FIXSession
+        s2 = FIXSession(1, target, sender)
+        s2.next_num_out, s2.next_num_in = nxt, 1
+        impl.codec.current_datetime = lambda: now
+        try:
+            f2 = impl.codec.encode(impl.last_msg, s2, raw_seq_num=raw)
+        except Exception as e:  # noqa
+            f2 = "raised " + K.exc_kind(e)
+        finally:
+            del impl.codec.current_datetime
+        if f2 != f:
+            return {"signature": "C01-second-encode-differs:" + mode, "what": "encoding the same message object again gives another frame",
+                    "input": inp, "expected": C.cp(f), "observed": C.cp(f2)}, "checked"
     try:
         frame = f.encode("latin-1")
     except UnicodeEncodeError:
@@ -93,27 +179,56 @@ def roundtrip_impl(impl, case, mode):
                                K.tok_tree(expected_tree(mtype, tree, sender, target, st, now, body_len, ck)))
     if ref != frame:
         return {"signature": "C01-encoder-differs-from-reference-framer", "what": "encoder bytes differ from the reference framing of the same fields",
-                "input": case_json(case), "expected": C.cp(ref), "observed": C.cp(frame)}, "checked"
+                "input": inp, "expected": C.cp(ref), "observed": C.cp(frame)}, "checked"
     if d != exp:
-        return {"signature": "C01-roundtrip-mismatch:" + mode, "what": "decode(encode(m)) is not the expected message / consumed / raw bytes",
-                "input": case_json(case), "expected": exp[:3000], "observed": d[:3000]}, "checked"
+        return {"signature": "C01-roundtrip-mismatch:" + mode + (":hist" if hist else ""),
+                "what": "decode(encode(m)) is not the expected message / consumed / raw bytes",
+                "input": inp, "expected": exp[:3000], "observed": d[:3000]}, "checked"
+    if (hist["seed"] if hist else len(frame)) % 5 == 1:
+        # a message whose history is "it was decoded": the application takes the decoded object, removes the framing
+        # tags and sends it on - the same content, so the same frame
+        from asyncfix.session import FIXSession
+        s2 = FIXSession(1, target, sender)
+        s2.next_num_out, s2.next_num_in = nxt, 1
+        impl.codec.current_datetime = lambda: now
+        try:
+            m2 = impl.codec.decode(frame)[0]
+            for t in ("8", "9", "35", "10"):
+                del m2[t]
+            f3 = impl.codec.encode(m2, s2, raw_seq_num=raw)
+        except Exception as e:  # noqa
+            f3 = "raised " + K.exc_kind(e)
+        finally:
+            del impl.codec.current_datetime
+        if f3 != f:
+            return {"signature": "C01-reencode-of-decoded-differs:" + mode, "what": "encoding the decoded message (framing tags removed) "
+                    "does not give the frame it was decoded from", "input": inp, "expected": C.cp(f), "observed": C.cp(f3)[:3000]}, "checked"
+        return None, "checked+reencoded-decoded"
     return None, "checked"
 
 
-def case_json(case):
-    return [case[0], K.tok_tree(case[1]), case[2], case[3], case[4], case[5], case[6]]
+def case_json(case, hist=None, hb=None):
+    out = [case[0], K.tok_tree(case[1]), case[2], case[3], case[4], case[5], case[6]]
+    if hist is not None:
+        out.append(dict(hist, operations=(hb.log[:200] if hb is not None else [])))
+    return out
 
 
 def correspondence(ctx):
     drv = C.Driver()
     impl = K.Impl()
     n = ctx.n(2000, 30000)
-    lines, exp, stats = [], [], {"wf": 0, "depth>=2": 0, "framing_like_values": 0, "modes": {}}
+    lines, exp, stats = [], [], {"wf": 0, "depth>=2": 0, "framing_like_values": 0, "modes": {}, "msg_type_classes": {},
+                                 "built_by_history": 0, "msg_type_as_FMsg_member": 0, "history_operations": {},
+                                 "history_diverged": 0}
     groups_hit = set()
     wf_lines, wf_exp = [], []
+    ctx.c01_cases = {}
     for i in range(n):
-        case, mode = gen(ctx, i)
+        case, mode, hist = gen(ctx, i)
         stats["modes"][mode] = stats["modes"].get(mode, 0) + 1
+        mc = K.mtype_class(case[0])
+        stats["msg_type_classes"][mc] = stats["msg_type_classes"].get(mc, 0) + 1
         mtype, tree, sender, target, nxt, raw, now = case
         for nd in tree:
             if nd[0] == "G":
@@ -124,8 +239,18 @@ def correspondence(ctx):
             stats["framing_like_values"] += 1
         # encode, both sides
         lines.append(K.enc_line(*case))
-        r, f = impl.encode(*case)
+        ctx.c01_cases[lines[-1]] = (case, mode, hist)
+        sink = []
+        r, f = impl.encode(*case, builder=builder_of(case, hist, sink))
         exp.append(r)
+        if hist is not None:
+            stats["built_by_history"] += 1
+            if hist["spell"] == "fmsg" and mc == "standard":
+                stats["msg_type_as_FMsg_member"] += 1
+            if sink:
+                add_stats(stats["history_operations"], sink[0])
+                if f is not None and K.tree_of(impl.last_msg) != [tuple(x) for x in tree]:
+                    stats["history_diverged"] += 1
         # decode of the encoder's output, both sides
         if f is not None:
             try:
@@ -134,6 +259,7 @@ def correspondence(ctx):
                 fb = None
             if fb is not None:
                 lines.append("codec.decode " + C.cp(fb))
+                ctx.c01_cases[lines[-1]] = (case, mode, hist)
                 exp.append(impl.decode(fb))
         # the theorem's hypothesis on this message (latin-1 part of the quantifier)
         c2 = strip_nonlatin(case)
@@ -165,7 +291,9 @@ def correspondence(ctx):
         "evaluations": len(lines) + len(wf_lines),
         "distinct_nontrivial": len(set(lines + wf_lines)),
         "rule": "messages over the implementation's own group table (each group tag forced >= 3 times, 1..3 items, optional members, "
-        "nesting to depth 3, framing-like text in values, four encoding modes): Codec.encode vs model encode, Codec.decode vs model decode on the "
+        "nesting to depth 3, framing-like text in values, four encoding modes; message types from the whole FMsg vocabulary, padded / "
+        "respelled standard types and custom types; about half of the messages reach their content through a history of container "
+        "operations - overwrites, deletions, junk groups added and removed, items as dicts or shared instances, FMsg / FTag spellings): Codec.encode vs model encode, Codec.decode vs model decode on the "
         "encoder's bytes, and the theorem hypothesis wfTop evaluated by the compiled model vs the harness' own well-formedness on the same "
         "messages and on mutated (non-wf) trees; distinct = distinct request lines",
         "samples": [{"request": (lines + wf_lines)[i][:300], "reply": out[i][:200]} for i in (0, len(lines) // 2, len(lines) + 1)],
@@ -216,25 +344,59 @@ def mutate_tree(rng, tree):
 def oracle(ctx, disagreements, broken):
     impl = K.Impl()
     failures, counts = [], {}
+    hstats, mtc = {}, {}
     n = ctx.n(2500, 40000) * (3 if broken else 1)
-    for i in range(n):
-        case, mode = gen(ctx, i)
+
+    def one(case, mode, hist):
         case = strip_nonlatin(case)
         if any(x[0] == "E" for x in case[1]):
-            continue
-        f, info = roundtrip_impl(impl, case, mode)
+            return
+        mc = K.mtype_class(case[0])
+        mtc[mc] = mtc.get(mc, 0) + 1
+        f, info = roundtrip_impl(impl, case, mode, hist, hstats)
         counts[info] = counts.get(info, 0) + 1
+        if hist is not None:
+            counts["built-by-history"] = counts.get("built-by-history", 0) + 1
         if f:
             failures.append(f)
-    ctx.oracle_stats = {"cases": n, "outcomes": counts, "failures": len(failures)}
+
+    # the inputs on which model and implementation disagreed come first
+    stash = getattr(ctx, "c01_cases", {})
+    for d in disagreements[:300]:
+        hit = stash.get(d.get("input"))
+        if hit:
+            one(*hit)
+            counts["replayed-disagreements"] = counts.get("replayed-disagreements", 0) + 1
+    for c in CORPUS:
+        one(*c)
+    for i in range(n):
+        one(*gen(ctx, i))
+    # smallest failing input first per signature
+    failures.sort(key=lambda f: len(str(f["input"])))
+    ctx.oracle_stats = {"cases": n, "outcomes": counts, "failures": len(failures), "msg_type_classes": mtc,
+                        "history_operations": hstats}
     return failures
+
+
+# hand-made cases that always run: padded / odd message types, one block object at two places, an edited message
+CORPUS = [
+    (("D ", [("L", "55", "X")], "SND", "TGT", 7, False, NOW), "alloc", None),
+    ((" 8 ", [("L", "55", "X")], "SND", "TGT", 7, False, NOW), "alloc", {"seed": 1, "spell": "str"}),
+    (("AE", [("L", "55", "X")], "SND", "TGT", 7, False, NOW), "alloc", {"seed": 2, "spell": "fmsg"}),
+    (("J", [("L", "70", "A1"),
+            ("G", "78", [[("L", "79", "ACC-1"), ("G", "539", [[("L", "524", "BRK"), ("L", "538", "1")]])],
+                         [("L", "79", "ACC-2"), ("G", "539", [[("L", "524", "BRK"), ("L", "538", "1")]])]])],
+      "SND", "TGT", 5, False, NOW), "alloc", {"seed": 3, "spell": "fmsg"}),
+]
 
 
 def replay(ctx, rp):
     impl = K.Impl()
     c = rp["input"]
     case = (c[0], parse_tok_tree(c[1]), c[2], c[3], c[4], c[5], c[6])
-    mode = rp["signature"].split(":")[-1] if ":" in rp["signature"] else "alloc"
-    f, info = roundtrip_impl(impl, case, mode)
+    hist = c[7] if len(c) > 7 else None
+    parts = rp["signature"].split(":")
+    mode = parts[1] if len(parts) > 1 else "alloc"
+    f, info = roundtrip_impl(impl, case, mode, hist)
     print("replay:", info, f["signature"] if f else None)
     return f is not None
